@@ -18,19 +18,6 @@ Definition unlock_addr (s : db) (c : cmd) : option ref :=
 Definition cancel_tgt (s : db) (c : cmd) : option ref :=
   match m_wait (getm s (c_key c)) with Some q => find_last_waiter s (wq_items q) (c_lockid c) None | None => None end.
 
-(* `locked` of the key after the cancelled record gave back its depth (0 for a plain waiter) *)
-Definition cancel_val (s : db) (k : N) (r : ref) : N :=
-  if 0 <? dep s r then sub32 (mlk s k) (dep s r) else mlk s k.
-
-Lemma mlk_chain_sub s U S k d :
-  mfr (updm U k (fun m => m <| m_locked := sub32 (m_locked m) d |>)) S -> mfr s U -> aget (mgrs s) k <> None ->
-  mlk S k = sub32 (mlk s k) d.
-Proof.
-  intros H1 H2 Hk. rewrite (mfr_mlk _ _ k H1).
-  rewrite (mlk_updm_locked U k (fun x => sub32 x d)); [|eapply mfr_has; eauto].
-  rewrite (mfr_mlk _ _ k H2). reflexivity.
-Qed.
-
 (* ------------------------------------------------------------------ cancelWaitLock *)
 Definition rc2 (a b : N) (e : event) : Prop :=
   match e with
@@ -209,4 +196,69 @@ Proof.
     cbn [N.eqb R_SUCCED]. exists r. rewrite <- Hkk. split; [exact Ha|]. split; [reflexivity|]. split; [symmetry; exact Hd|].
     left. split; [reflexivity|]. destruct Hm as [Hm|Hm]; [right|left; exact Hm].
     rewrite Hm. fold (dep s r) in H1. rewrite H1. apply mlk_updm_locked with (g := fun x => sub32 x 1). exact Hk.
+Qed.
+
+Theorem unlock_step_counts s conn c s' ev w :
+  unlock_step s conn c = (s', ev, w) -> Forall (uro s c s') ev.
+Proof.
+  rewrite unlock_step_eq. cbv zeta.
+  destruct (aget (mgrs s) (c_key c)) as [m|] eqn:Em.
+  2:{ intros H. inv_tuple H. constructor; [|constructor].
+      apply uro_err; try reflexivity; try neq_res; strip_bump; symmetry; apply mlk_none; exact Em. }
+  assert (Hk : aget (mgrs s) (c_key c) <> None) by congruence.
+  assert (Hm : getm s (c_key c) = m) by (apply getm_some; exact Em).
+  assert (Hlk : m_locked m = mlk s (c_key c)) by (unfold mlk; rewrite Hm; reflexivity).
+  assert (ERR : forall c' res s1 e1 w1, ul_err conn (c_key c) m s c' res 0 = (s1, e1, w1) ->
+                  (res =? R_SUCCED) = false -> (res =? R_ACK_WAITING) = false -> res <> R_LOCKED_ERROR ->
+                  Forall (uro s c s1) e1).
+  { intros c' res s1 e1 w1 H H1 H2 H3. unfold ul_err in H. inv_tuple H. constructor; [|constructor].
+    apply uro_err; auto. }
+  assert (ACK : forall c' r s1 e1 w1, ul_err conn (c_key c) m s c' R_ACK_WAITING (l_locked (getl s r)) = (s1, e1, w1) ->
+                  unlock_addr s c = Some r -> Forall (uro s c s1) e1).
+  { intros c' r s1 e1 w1 H Ha. unfold ul_err in H. inv_tuple H. constructor; [|constructor].
+    eapply uro_ack; eauto. }
+  destruct (negb (leader s) && negb (has (c_flag c) UNLOCK_FLAG_FROM_AOF)).
+  { intros H. eapply ERR; [exact H| | |]; try reflexivity. neq_res. }
+  destruct (m_locked m =? 0).
+  { destruct (has (c_flag c) UNLOCK_FLAG_CANCEL_WAIT).
+    - apply cancel_uro.
+    - intros H. eapply ERR; [exact H| | |]; try reflexivity. neq_res. }
+  unfold ul_target. cbv zeta.
+  destruct (get_locked_lock s m (c_lockid c)) as [r|] eqn:Eg.
+  - assert (Ha : unlock_addr s c = Some r) by (unfold unlock_addr; cbv zeta; rewrite Hm, Eg; reflexivity).
+    destruct (negb (l_ack (getl s r) =? 255)).
+    + intros H. eapply ACK; eauto.
+    + intros H. eapply ul_body_counts; eauto.
+  - destruct (has (c_flag c) UNLOCK_FLAG_FIRST) eqn:Ef.
+    + destruct (m_cur m) as [cr|] eqn:Ec.
+      * assert (Ha : unlock_addr s c = Some cr) by (unfold unlock_addr; cbv zeta; rewrite Hm, Eg, Ef; exact Ec).
+        destruct (negb (l_ack (getl s cr) =? 255)).
+        -- intros H. eapply ACK; eauto.
+        -- intros H. eapply ul_body_counts; eauto.
+      * intros H. eapply ERR; [exact H| | |]; try reflexivity. neq_res.
+    + destruct (has (c_flag c) UNLOCK_FLAG_CANCEL_WAIT).
+      * apply cancel_uro.
+      * intros H. eapply ERR; [exact H| | |]; try reflexivity. neq_res.
+Qed.
+
+(* the uniform statement: LCount is `locked` of the key in the state returned by the critical section, except when a
+   cancel-wait removed the key's manager (then it is the value just before the removal) *)
+Corollary unlock_step_lcount_post s conn c s' ev w :
+  unlock_step s conn c = (s', ev, w) ->
+  Forall (fun e => match e with
+                   | EReply _ _ res lc _ _ _ _ _ =>
+                       lc = u16 (mlk s' (c_key c))
+                       \/ (aget (mgrs s') (c_key c) = None /\ (res = R_LOCKED_ERROR \/ res = R_UNLOCK_ERROR)
+                           /\ exists r, cancel_tgt s c = Some r /\ lc = u16 (cancel_val s (c_key c) r))
+                   | _ => True end) ev.
+Proof.
+  intros H. apply unlock_step_counts in H. eapply Forall_impl; [|exact H].
+  intros [] He; simpl in *; auto.
+  destruct (result =? R_SUCCED).
+  - destruct He as (r & _ & -> & _). auto.
+  - destruct (result =? R_ACK_WAITING).
+    + destruct He as (r & _ & -> & _). auto.
+    + destruct He as (_ & [(-> & _)|(r & Ht & -> & [E|E] & Hres)]); auto.
+      * left. rewrite E. reflexivity.
+      * right. split; auto. split; auto. exists r. auto.
 Qed.
